@@ -176,7 +176,7 @@ def parseOp (s : St) (toks : List String) : Option Op :=
       | _ => none
   | "dhtpeers" => some (.dhtpeers ((kvStr toks "addrs").splitOn "@" |>.length |> (· ≥ 2)))
   | "disconnect" => some (.disconnect (kvNat toks "p"))
-  | "snub" => some (.snub (kvNat toks "p"))
+  | "snub" | "snubclose" => some (.snub (kvNat toks "p"))
   | _ => none
 
 /-- Driver state: the model state plus a piece message parked while a write is in flight. -/
@@ -438,13 +438,15 @@ def stepDriver (d : DSt) (op implObs : String) : DSt × String × List String :=
     let (r, parked) := step s d.parked (fun k => d.knownPeers.contains k) mop
     -- `hangup=1`: the peer's disconnect was queued right behind the block (the harness says `hungup`); the
     -- model handles the two events one after the other, without clearing the per-op records in between
-    let hang2 (r : StepOut) (parked : Parked) (k : Nat) : StepOut × Parked :=
+    let hang2 (r : StepOut) (parked : Parked) (k : Nat) (verdict : String) : StepOut × Parked :=
       let (m2, _, parked2) := handle r.st parked (fun k => d.knownPeers.contains k) (Op.disconnect k)
       let m3 : M := runWorkers 12 (m2.1, r.outs ++ m2.2)
-      (({ st := m3.1, verdict := "hungup", outs := m3.2 } : StepOut), parked2)
+      (({ st := m3.1, verdict := verdict, outs := m3.2 } : StepOut), parked2)
     let (r, parked) : StepOut × Parked :=
       match mop with
-      | .msg k _ => if implVerdict = "hungup" then hang2 r parked k else (r, parked)
+      | .msg k _ => if implVerdict = "hungup" then hang2 r parked k "hungup" else (r, parked)
+      -- `snubclose`: the peer's snub report and its disconnect reach the loop together (either order)
+      | .snub k => if toks.headD "" = "snubclose" && implVerdict = "" then hang2 r parked k r.verdict else (r, parked)
       | _ => (r, parked)
     let st1 := r.st
     let outs1 := r.outs
